@@ -340,7 +340,7 @@ theorem setOff_val (d : Bytes) (hd : d.size + 1024 ≤ 4294967296) (k : Nat) (hk
 theorem finishPath (d : Bytes) (hd : d.size + 1024 ≤ 4294967296) (start k : Nat) (hk : k ≤ 1020) (r0 r : Reader)
     (h : Inv d r) (h0 : r0.offset ≤ r.offset) (hle : ¬ u32 (r.offset + k) > r.pkgEnd) :
     wp (do setOffset d (u32 (r.offset + k)); pure (some start) : LexM (Option Nat))
-      (fun a r' => Inv d r' ∧ r0.offset ≤ r'.offset ∧ ∀ st, a = some st → st = start ∨ st = r'.offset) r := by
+      (fun a r' => Inv d r' ∧ r0.offset ≤ r'.offset ∧ ∀ st, a = some st → st = start ∨ st = start + 1) r := by
   have hsz := h.1
   have hpe := h.2
   apply wp_bind
@@ -353,13 +353,12 @@ theorem finishPath (d : Bytes) (hd : d.size + 1024 ≤ 4294967296) (start k : Na
 
 theorem parseNamePath_spec (d : Bytes) (hd : d.size + 1024 ≤ 4294967296) (next start : Nat) (r : Reader) (h : Inv d r) :
     wp (parseNamePath d next start) (fun a r' => Inv d r' ∧ r.offset ≤ r'.offset ∧
-      ∀ st, a = some st → st = start ∨ st = r'.offset) r := by
+      ∀ st, a = some st → st = start ∨ st = start + 1) r := by
   have hsz := h.1
   have hpe := h.2
   unfold parseNamePath
   split
-  · repeat wp_step
-    exact wp_pure ⟨h, Nat.le_refl _, by intro st hst; simp at hst; right; exact hst.symm⟩
+  · exact wp_pure ⟨h, Nat.le_refl _, by intro st hst; simp at hst; right; exact hst.symm⟩
   · split
     · repeat wp_step
       split
